@@ -232,9 +232,7 @@ def _run(ctx):
             cont = cpath(g.iter)
             if cont in PENDING:
                 n_s += 1
-                okc = len(g.ifs) == 1 and isinstance(g.ifs[0], ast.Compare) and len(g.ifs[0].ops) == 1 and \
-                    isinstance(g.ifs[0].ops[0], ast.LtE) and norm(g.ifs[0].left) == norm(g.target) and \
-                    norm(g.ifs[0].comparators[0]) == hvar.id and norm(it.elt) == norm(g.target)
+                okc = len(g.ifs) == 1 and q.cmp_matches(ctx, mn, g.ifs[0], f'{norm(g.target)} <= {hvar.id}') and norm(it.elt) == norm(g.target)
                 swept = [c for c in walk_own(loop) if isinstance(c, ast.Call) and isinstance(c.func, ast.Attribute)
                          and c.func.attr == 'pop' and cpath(c.func.value) == cont and norm(c.args[0]) == norm(loop.target)]
                 ctx.check(okc and len(swept) == 1, 'C20.SWEEP', ctx.key(mn, loop),
